@@ -2061,22 +2061,28 @@ def c12g(F, R):
             # (`!prevs().iter().any(|x| visited.contains(x))`) and the same block resets every fact of the node before leaving
             def _is_wait_for_pred(n):
                 from .p_parse import parent_map
+                from .facts import path_forces, local_inits
                 pmb = parent_map(body)
-                x = n
+                lets_ = local_inits(body)
+                vs_ = _visited_sets(f)
+
+                def classify(x):
+                    # `node.prevs().iter().any(|x| visited.contains(x))`: some predecessor has been evaluated
+                    if x.get("k") == "MethodCall" and x["name"] == "any" and mentions_call(x["recv"], "prevs") and x["args"] and \
+                            any(m.get("k") == "MethodCall" and m["name"] == "contains" and ekey(m["recv"]).lstrip("&*") in vs_ for m in walk(x["args"][0], pats=False)):
+                        return "some_pred_evaluated"
+                    return None
+                if not path_forces(pmb, n, classify, "some_pred_evaluated", False, lets_):
+                    return False
                 blk = None
-                while id(x) in pmb:
+                x = n
+                while id(x) in pmb and blk is None:
                     x = pmb[id(x)]
-                    if x.get("k") == "Block" and blk is None:
+                    if x.get("k") == "Block":
                         blk = x
-                    if x.get("k") == "If":
-                        c = list(walk(x["cond"], pats=False)) + [y for cl in walk(x["cond"], pats=False) if cl.get("k") == "Closure" for y in walk(cl.get("body") or {}, pats=False)]
-                        tests_visited = any(m.get("k") == "MethodCall" and m["name"] == "contains" and ekey(m["recv"]).lstrip("&*") in _visited_sets(f) for m in c) and \
-                            any(m.get("k") == "MethodCall" and m["name"] == "prevs" for m in c) and any(m.get("k") == "MethodCall" and m["name"] == "any" for m in c)
-                        negated = any(u.get("k") == "Unary" and u["op"] == "Not" and any(m.get("k") == "MethodCall" and m["name"] == "any" for m in walk(u, pats=False)) for u in c)
-                        resets = blk is not None and {callee_of(m) for m in walk(blk, pats=False) if m.get("k") in ("MethodCall", "Call") and callee_of(m) in setters} >= {p_ for p_, fld in setters.items() if fld in ("reg_values_out", "memory_values_out", "reg_values_in", "memory_values_in")} if name == "AvailableValuePass" else True
-                        if tests_visited and negated and resets:
-                            return True
-                return False
+                if name != "AvailableValuePass":
+                    return True
+                return blk is not None and {callee_of(m) for m in walk(blk, pats=False) if m.get("k") in ("MethodCall", "Call") and callee_of(m) in setters} >= {p_ for p_, fld in setters.items() if fld in ("reg_values_out", "memory_values_out", "reg_values_in", "memory_values_in")}
             skips = [n for n in skips if not (n.get("k") == "Continue" and _is_wait_for_pred(n))]
             if skips:
                 R.bad(f"{name}|skip", f"{name}: a `{skips[0]['k'].lower()}` leaves the per-node body before the node's out-facts are recomputed: a node is not re-evaluated in this sweep (e.g. because its ins did not change), although its transfer function also depends on state other than its ins", loc(skips[0]))
@@ -2281,7 +2287,10 @@ def c06u(F, R):
             for st in stmts:
                 e = peel(st.get("e") or {})
                 if e.get("k") == "If" and any(y.get("k") == "Continue" for y in walk(e["then"], pats=False)):
-                    c = list(walk(e["cond"], pats=False)) + [y for cl in walk(e["cond"], pats=False) if cl.get("k") == "Closure" for y in walk(cl.get("body") or {}, pats=False)]
+                    from .facts import walk_expanded, local_inits
+                    lets_ = local_inits(body)
+                    c = list(walk_expanded(e["cond"], lets_))
+                    c += [y for cl in list(c) if cl.get("k") == "Closure" for y in walk(cl.get("body") or {}, pats=False)]
                     if any(m.get("k") == "MethodCall" and m["name"] == "contains" and ekey(m["recv"]).lstrip("&*") in _visited_sets(f) for m in c) and any(m.get("k") == "MethodCall" and m["name"] == "prevs" for m in c) \
                             and any(u.get("k") == "Unary" and u["op"] == "Not" for u in c):
                         first_site = min(i for i, s2 in enumerate(stmts) if any(y is sites[0] for y in walk(s2, pats=False))) if any(any(y is sites[0] for y in walk(s2, pats=False)) for s2 in stmts) else 10 ** 6
@@ -2299,8 +2308,8 @@ def c06u(F, R):
                                     return "anyvisited"
                                 return None
                             try:
-                                must = bool_eval(e["cond"], classify, {"entry": False, "noprevs": False, "anyvisited": False})
-                                mustnot = bool_eval(e["cond"], classify, {"entry": False, "noprevs": False, "anyvisited": True})
+                                must = bool_eval(e["cond"], classify, {"entry": False, "noprevs": False, "anyvisited": False}, lets_)
+                                mustnot = bool_eval(e["cond"], classify, {"entry": False, "noprevs": False, "anyvisited": True}, lets_)
                                 if must is True and mustnot is False:
                                     waits = True
                                 else:
